@@ -48,6 +48,8 @@ type WrCase struct {
 	Pre []WrOp `json:"pre,omitempty"`
 	// AbortOnErr: the handler does what httputil.ReverseProxy does when a Write fails: panic(http.ErrAbortHandler)
 	AbortOnErr bool `json:"abortonerr,omitempty"`
+	// ReqHdrs: further request headers; none of them changes what the plugins owe the client
+	ReqHdrs [][2]string `json:"reqhdrs,omitempty"`
 }
 
 var wrCT = []string{"application/json", "text/html; charset=utf-8", "text/plain", "image/png", "application/json; charset=utf-8", "text/css", "application/octet-stream"}
@@ -175,6 +177,7 @@ func wrExchange(h http.Handler, probe *handlerProbe, c WrCase) wrView {
 	if c.AE != "\x00" {
 		hdrs = append(hdrs, [2]string{"Accept-Encoding", c.AE})
 	}
+	hdrs = append(hdrs, c.ReqHdrs...)
 	var body []byte
 	if c.ReqFraming != "" {
 		body = detBytes(7, c.ReqLen)
@@ -400,6 +403,20 @@ func genWrCase(g *Rng) WrCase {
 	if g.Chance(10) {
 		c.Script = append(c.Script, WrOp{K: "head", Code: 103})
 	}
+	if g.Chance(15) { // request headers that invite a shortcut
+		c.ReqHdrs = [][][2]string{
+			{{"Upgrade", "websocket"}, {"Connection", "keep-alive, Upgrade"}},
+			{{"Upgrade", "h2c"}, {"Connection", "Upgrade"}},
+			{{"Range", "bytes=0-9"}},
+			{{"If-None-Match", "\"v1\""}},
+			{{"Cache-Control", "no-transform"}},
+			{{"Te", "trailers"}},
+			{{"X-Requested-With", "XMLHttpRequest"}, {"Accept", "text/event-stream"}},
+		}[g.Intn(7)]
+	}
+	if g.Chance(8) { // a Flush before anything else: the header block goes out with the implicit 200
+		c.Script = append(c.Script, WrOp{K: "flush"})
+	}
 	status := 200
 	explicit := g.Chance(65)
 	if explicit {
@@ -416,7 +433,7 @@ func genWrCase(g *Rng) WrCase {
 	if declareCL {
 		cl := total
 		if (status == 204 || status == 304 || c.Method == "HEAD") && g.Chance(60) {
-			cl = []int{limit + 1, 10 * limit, 100000}[g.Intn(3)] // entity length of a body-less response
+			cl = []int{limit + 1, 10 * limit, 100000, 10485761, 20000000}[g.Intn(5)] // entity length of a body-less response
 		}
 		c.Script = append(c.Script, WrOp{K: "set", Key: 2, Val: cl})
 	}
@@ -498,6 +515,17 @@ func wrCorpus() []WrCase {
 		{Chain: []WrPlug{gz(16, false)}, AE: "gzip", Method: "GET", Script: []WrOp{{K: "set", Key: 1, Val: 0}, {K: "write", N: 15}}},
 		{Chain: []WrPlug{gz(16, false)}, AE: "gzip", Method: "GET", Script: []WrOp{{K: "set", Key: 1, Val: 0}, {K: "write", N: 16}}},
 		{Chain: []WrPlug{gz(16, false)}, AE: "gzip", Method: "GET", Script: []WrOp{{K: "set", Key: 1, Val: 3}, {K: "write", N: 40}}},
+		// a Flush before anything else, then a body that would qualify for compression
+		{Chain: []WrPlug{gz(16, false)}, AE: "gzip", Method: "GET", Script: []WrOp{{K: "set", Key: 1, Val: 0}, {K: "flush"}, {K: "write", N: 40}}},
+		{Chain: []WrPlug{gz(16, false)}, AE: "gzip", Method: "GET", Script: []WrOp{{K: "flush"}, {K: "set", Key: 1, Val: 0}, {K: "head", Code: 201}, {K: "write", N: 40}}},
+		// declared lengths above the 10 MiB buffering cap with a status other than 200: a partial answer with its whole body,
+		// a not-modified answer repeating the entity length
+		{Chain: []WrPlug{gz(16, false)}, AE: "gzip", Method: "GET", Script: []WrOp{{K: "set", Key: 1, Val: 0}, {K: "set", Key: 2, Val: 10489856}, {K: "head", Code: 206}, {K: "write", N: 10489856}}},
+		{Chain: []WrPlug{gz(16, false)}, AE: "gzip", Method: "GET", Script: []WrOp{{K: "set", Key: 1, Val: 0}, {K: "set", Key: 2, Val: 20000000}, {K: "head", Code: 304}}},
+		{Chain: []WrPlug{gz(16, false)}, AE: "gzip", Method: "GET", Script: []WrOp{{K: "set", Key: 1, Val: 0}, {K: "set", Key: 2, Val: 10485760}, {K: "head", Code: 404}, {K: "write", N: 10485760}}},
+		// an Upgrade request answered by a plain handler: the response limit still applies
+		{Chain: []WrPlug{sl(10, 100)}, AE: "\x00", Method: "GET", ReqHdrs: [][2]string{{"Upgrade", "websocket"}, {"Connection", "Upgrade"}}, Script: []WrOp{{K: "write", N: 1000}}},
+		{Chain: []WrPlug{sl(10, 100)}, AE: "\x00", Method: "GET", ReqHdrs: [][2]string{{"Upgrade", "websocket"}, {"Connection", "Upgrade"}}, Script: []WrOp{{K: "set", Key: 2, Val: 1000}, {K: "head", Code: 200}, {K: "write", N: 1000}}},
 	}
 }
 
